@@ -567,3 +567,32 @@ for _pid, _t in _ROUND6.items():
     assert " Does not decide:" in _e, _pid
     PROPS[_pid]["explanation"] = _e.replace(
         " Does not decide:", " " + _t + " Does not decide:", 1)
+
+
+# Clauses added after the seventh seeding round (DESIGN 9.11).
+_ROUND7 = {
+    "C01": "R69 the time-of-day part of _tick_over conserves seconds + "
+           "60*minutes + 3600*hours + 86400*(days carried) on every path "
+           "(symbolic identity in a linear normal form); R72 a loop that "
+           "steps a year asks the calendar helpers about that year.",
+    "C02": "R69 get_hour_minute_second() and get_second_of_day() return the "
+           "total of the fields that are set.",
+    "C07": "R70 a dumper cached under a digit count is built for that "
+           "count; R26 year_sign is '-' exactly for negative years; R42 the "
+           "local offset uses the daylight offset only when DST is defined "
+           "and in effect.",
+    "C09": "R74 truncated date information is fabricated only where "
+           "allow_truncated holds; R36 constructor defaults are filled in "
+           "only under `is None`.",
+    "C10": "R71 the week form is `_weeks is not None`, the stored week "
+           "count is the signed day count // 7; R27 whole-number components "
+           "of any length are read back.",
+    "C11": "R69 Duration(standardize=True) conserves the total length.",
+    "C19": "R73 the search over the parse formats stops at the first "
+           "success; each offset list is unescaped from itself.",
+}
+for _pid, _t in _ROUND7.items():
+    _e = PROPS[_pid]["explanation"]
+    assert " Does not decide:" in _e, _pid
+    PROPS[_pid]["explanation"] = _e.replace(
+        " Does not decide:", " " + _t + " Does not decide:", 1)
